@@ -16,6 +16,7 @@ package mqttproxy
 import (
 	"fmt"
 	"math/rand"
+	"strings"
 	"testing"
 	"time"
 
@@ -101,12 +102,13 @@ func c16scenarios() []c16Scn {
 }
 
 func TestVerif_C16_Sessions(t *testing.T) {
+	c15rigSkipForReplay(t)
 	r := kit.Start(t, "C16")
 	defer r.Finish()
 	scns := c16scenarios()
-	r.Rule(fmt.Sprintf("%d scripted schedules for one client id: {cleanSession old} x {cleanSession new} x {new filter = old filter or not} x {plain reconnect after DISCONNECT / after a silent drop; takeover with the old connection's end (FIN through the relay, or DISCONNECT packet) placed after the new CONNACK / after the new SUBSCRIBE / after the first delivery / never; takeover with the old connection ended by the broker's keep-alive deadline; admin delete; session-delete watch event delayed past the reconnect}; repeated (quick 3x, thorough 50x) with seeded jitter between the steps and a random QoS for the probe on the old filter; after the old teardown has completed a fresh message per filter is published; distinct = (schedule, symptoms)", len(scns)))
+	r.Rule(fmt.Sprintf("%d scripted schedules for one client id: {cleanSession old} x {cleanSession new} x {new filter = old filter or not} x {plain reconnect after DISCONNECT / after a silent drop; takeover with the old connection's end (FIN through the relay, or DISCONNECT packet) placed after the new CONNACK / after the new SUBSCRIBE / after the first delivery / never; takeover with the old connection ended by the broker's keep-alive deadline; admin delete; session-delete watch event delayed past the reconnect}; repeated (quick 3x, thorough 200x) with seeded jitter between the steps and a random QoS for the probe on the old filter; after the old teardown has completed a fresh message per filter is published; distinct = (schedule, symptoms)", len(scns)))
 	r.Assume("one client id, keepalive 0 except in the keep-alive schedules, no will; delete-watch events are delivered promptly (right after the teardown that caused them, before the next step) except in the stale-delete-event schedules; old cleanSession=true followed by new cleanSession=false: whether the old subscription comes back is left open (counted, not judged); new cleanSession=true while the superseded connection has not been torn down yet: delivery on the old filter is counted, not judged")
-	reps := r.N(3, 50)
+	reps := r.N(3, 200)
 	n := len(scns) * reps
 	for i := 0; i < n; i++ {
 		if !r.Mine(i) {
@@ -203,7 +205,12 @@ func c16run(r *kit.Run, rng *rand.Rand, s c16Scn, first bool) {
 		for _, sy := range symptoms {
 			if !c16famDeregistered[sy] && !c16famSessionGone[sy] && !seen[sy] {
 				seen[sy] = true
-				r.Violation(s.sig(sy), base())
+				if strings.HasPrefix(sy, "admin-delete") || strings.HasPrefix(sy, "old-connection-") || strings.HasPrefix(sy, "http-publish-") {
+					// failures that do not depend on the reconnect/takeover schedule they were seen in
+					r.Violation("any-schedule:"+sy, base())
+				} else {
+					r.Violation(s.sig(sy), base())
+				}
 			}
 		}
 	}
